@@ -59,9 +59,64 @@ def ifaces_for(spec):
     return f
 
 
-def run_jobs(jobs, timeout=60, chunk=8, total_timeout=3000):
+def run_jobs(jobs, timeout=60, chunk=8, total_timeout=None):
+    """Run iteration jobs in the implementation process.  A request that freezes the whole interpreter (native code
+    blocking while holding the GIL) is found by a process-level timeout; the progress file written by the runner says
+    which request it was: it is reported as {"hang": True, "process_frozen": True} and the rest of the chunk is re-run."""
+    import json as _json
+    import os as _os
+    import tempfile as _tf
     common.ensure_native()
-    res = []
-    for i in range(0, len(jobs), chunk):
-        res += common.run_impl("iterate_run.py", {"jobs": jobs[i:i + chunk], "timeout": timeout}, timeout=total_timeout)["jobs"]
+    res = [None] * len(jobs)
+    todo = list(range(len(jobs)))
+    while todo:
+        idx = todo[:chunk]
+        js = [jobs[i] for i in idx]
+        budget = total_timeout or min(180, 40 + sum(len(j["requests"]) for j in js) * 3 + 8 * len(js) + sum(q.get("pause", 0) for j in js for q in j["requests"]))
+        pf = _tf.NamedTemporaryFile(prefix="verif_progress_", suffix=".jsonl", delete=False)
+        pf.close()
+        try:
+            r = common.run_impl("iterate_run.py", {"jobs": js, "timeout": timeout}, timeout=budget, extra_env={"VERIF_PROGRESS": pf.name})["jobs"]
+            for i, x in zip(idx, r):
+                res[i] = x
+            todo = todo[len(idx):]
+        except RuntimeError as ex:
+            if "rc=124" not in str(ex) and "TIMEOUT" not in str(ex):
+                raise
+            recs = [_json.loads(l) for l in open(pf.name).read().splitlines() if l.strip()]
+            done_jobs = {}
+            for rec in recs:
+                d = done_jobs.setdefault(rec["job"], {"results": {}, "started": None})
+                if "reference" in rec:
+                    d.update({k: rec[k] for k in ("reference", "damaged_index", "decoder_rejects")})
+                elif "start" in rec:
+                    d["started"] = rec["start"]
+                elif "req" in rec:
+                    d["results"][rec["req"]] = rec["result"]
+            advanced = 0
+            for local, i in enumerate(idx):
+                d = done_jobs.get(local)
+                nreq = len(jobs[i]["requests"])
+                if d and "reference" in d and len(d["results"]) == nreq:
+                    res[i] = {"reference": d["reference"], "damaged_index": d.get("damaged_index"), "decoder_rejects": d.get("decoder_rejects"),
+                              "results": [d["results"][k] for k in range(nreq)]}
+                    advanced += 1
+                    continue
+                if d and "reference" in d:
+                    outs = []
+                    for k in range(nreq):
+                        if k in d["results"]:
+                            outs.append(d["results"][k])
+                        elif k == d["started"]:
+                            outs.append({"hang": True, "process_frozen": True})
+                        else:
+                            outs.append({"skipped": True})
+                    res[i] = {"reference": d["reference"], "damaged_index": d.get("damaged_index"), "decoder_rejects": d.get("decoder_rejects"), "results": outs}
+                else:
+                    res[i] = {"build_error": "the runner froze while building the dataset"}
+                advanced += 1
+                break
+            todo = todo[advanced:]
+        finally:
+            _os.unlink(pf.name)
     return res
